@@ -178,8 +178,14 @@ package frame
 //@   callsite AEAD.Seal ttl-flags-zeroed [C02]: f.data[1] == 0 && f.data[2] == 0
 //@   ensures ttl-flags-restored [C02]: len(f.data) == old(len(f.data)) && f.data[1] == old(f.data[1]) && f.data[2] == old(f.data[2])
 
+// unsealedBy: the session under which this frame was last authenticated (nil before / after a failed attempt)
+//@ type FrameV1
+//@   ghost unsealedBy ref
+
 //@ func FrameV1.Unseal
 //@   requires live(f) && s != nil
+//@   update when true: f.unsealedBy = (result == nil ? s : nil)
+//@   modifies f.data[1:3], f.data[f.messageIndex+2 : f.appendixIndex], any("F|state."), any("F|sync/atomic.Uint32")
 //@   callsite ed25519.Verify signed-range [C02]: base(arg1) == base(f.data) && off(arg1) == off(f.data) && len(arg1) == f.authIndex
 //@   callsite ed25519.Verify signature-slot [C02]: base(arg2) == base(f.data) && off(arg2) == off(f.data) + f.authIndex && len(arg2) == f.appendixIndex - f.authIndex
 //@   callsite ed25519.Verify ttl-flags-zeroed [C02]: f.data[1] == 0 && f.data[2] == 0
